@@ -313,19 +313,24 @@ class RBFEvaluator(FuncEvaluator, XCEvalSerializable):
         else:
             assert isinstance(kernel, DiffRBF)
             scale = 1.0
+        X1ctrl = np.asarray(X1ctrl)
         if isinstance(kernel, SubsetRBF):
-            if isinstance(kernel.indexes, slice):
-                i = kernel.indexes
-                start = i.start
-                step = i.step if i.step is not None else 1
-                stop = (
-                    i.stop
-                    if i.stop is not None
-                    else (len(kernel.length_scale) + i.start) // step
+            # Same selection as SubsetRBF itself, X[:, kernel.indexes] (list
+            # or slice), applied to the control points here and to the
+            # inputs in __call__, so that the C routine sees the same
+            # number of features (nfeat) for both.
+            indexes = np.arange(X1ctrl.shape[-1])[kernel.indexes]
+            if np.ndim(kernel.length_scale) == 1 and len(indexes) != len(
+                kernel.length_scale
+            ):
+                raise ValueError(
+                    "X1ctrl must contain all features seen by the kernel; "
+                    "kernel.indexes selects {} of its {} columns but the "
+                    "kernel has {} length scales".format(
+                        len(indexes), X1ctrl.shape[-1], len(kernel.length_scale)
+                    )
                 )
-                indexes = [i for i in range(start, stop, step)]
-            else:
-                indexes = kernel.indexes
+            X1ctrl = X1ctrl[..., indexes]
             indexes = np.array(indexes, dtype=np.int32)
         else:
             indexes = np.arange(len(kernel.length_scale), dtype=np.int32)
@@ -336,21 +341,26 @@ class RBFEvaluator(FuncEvaluator, XCEvalSerializable):
         self._indexes = np.ascontiguousarray(indexes)
 
     def __call__(self, X1, res=None, dres=None):
+        full_shape = X1.shape
         X1 = np.ascontiguousarray(X1[..., self._indexes])
         if res is None:
             res = np.zeros(X1.shape[-2])
         elif res.shape != (X1.shape[-2],):
             raise ValueError
+        # dres is the derivative with respect to all input features,
+        # like for every other FuncEvaluator.
         if dres is None:
-            dres = np.zeros(X1.shape)
-        elif dres.shape != X1.shape:
+            dres = np.zeros(full_shape)
+        elif dres.shape != full_shape:
             raise ValueError
+        # derivative with respect to the selected features only
+        dsub = np.zeros(X1.shape)
         n = X1.shape[-2]
-        for arr in [res, dres, X1]:
+        for arr in [res, dsub, X1]:
             assert arr.flags.c_contiguous
         self._fn(
             res.ctypes.data_as(ctypes.c_void_p),
-            dres.ctypes.data_as(ctypes.c_void_p),
+            dsub.ctypes.data_as(ctypes.c_void_p),
             X1.ctypes.data_as(ctypes.c_void_p),
             self._X1ctrl.ctypes.data_as(ctypes.c_void_p),
             self._alpha.ctypes.data_as(ctypes.c_void_p),
@@ -359,6 +369,7 @@ class RBFEvaluator(FuncEvaluator, XCEvalSerializable):
             ctypes.c_int(self._nctrl),
             ctypes.c_int(self._nfeat),
         )
+        dres[..., self._indexes] += dsub
         return res, dres
 
 
